@@ -119,7 +119,7 @@ Section Render.
     match e with
     | IRaw s => let t := pangu s in (t, cur ++ t)
     | ICode s => (render_code_span s, cur)
-    | IBreak soft => if soft then ([nlc], cur) else ([bsl; nlc], [])
+    | IBreak soft => if soft then ([nlc], cur ++ [nlc]) else ([bsl; nlc], [])
     | ILit c => render_literal h c cur
     | IHtml s => (s, cur)
     | IFootRef l => ([91; 94]%N ++ l ++ [93%N], cur)
